@@ -42,10 +42,15 @@ func (m *verifWriter) Close() error {
 func (m *verifWriter) Reset(w io.Writer) { m.w, m.header, m.closed = w, false, false }
 
 type verifReader struct {
-	r      io.Reader
-	header bool
-	failed bool
+	r         io.Reader
+	header    bool
+	failed    bool
+	readAhead bool   // like brotli: the first Read slurps the whole input into an internal buffer
+	pending   []byte // decoded output not yet delivered
+	slurped   bool
 }
+
+var verifReadAhead bool
 
 func (m *verifReader) Read(p []byte) (int, error) {
 	if m.failed {
@@ -70,6 +75,25 @@ func (m *verifReader) Read(p []byte) (int, error) {
 	if len(p) > 2 {
 		p = p[:2]
 	}
+	if m.readAhead {
+		if !m.slurped {
+			m.slurped = true
+			var tmp [4]byte
+			for {
+				n, err := m.r.Read(tmp[:])
+				m.pending = append(m.pending, tmp[:n]...)
+				if err != nil || n == 0 {
+					break
+				}
+			}
+		}
+		if len(m.pending) == 0 {
+			return 0, io.EOF
+		}
+		n := copy(p, m.pending)
+		m.pending = m.pending[n:]
+		return n, nil
+	}
 	return m.r.Read(p)
 }
 
@@ -77,6 +101,7 @@ func (m *verifReader) Close() error { return nil }
 
 func (m *verifReader) Reset(r io.Reader) error {
 	m.r, m.header, m.failed = r, false, false
+	m.pending, m.slurped = nil, false
 	return nil
 }
 
@@ -85,7 +110,8 @@ func VerifH_C20_pooledGlue() {
 	var c Compressor
 	var d Decompressor
 	newW := func(w io.Writer) (Writer, error) { return &verifWriter{w: w}, nil }
-	newR := func(r io.Reader) (Reader, error) { return &verifReader{r: r}, nil }
+	readAhead := vChoose("readAhead", 0, 1) == 1
+	newR := func(r io.Reader) (Reader, error) { return &verifReader{r: r, readAhead: readAhead}, nil }
 	steps := 2 + vTier()
 	for s := 0; s < steps; s++ {
 		switch vChoose("op", 0, 2) {
@@ -93,11 +119,11 @@ func VerifH_C20_pooledGlue() {
 			n := vChoose("len", 0, 4)
 			x := vBytes("x", n)
 			orig := append([]byte(nil), x...)
-			enc, err := c.Encode(make([]byte, vChoose("encDirty", 0, 1), vChoose("encCap", 1, 8)), x, newW)
+			enc, err := c.Encode(make([]byte, vChoose("encDirty", 0, 1), []int{1, 4, 8}[vChoose("encCap", 0, 2)]), x, newW)
 			vAssert(err == nil, "encode succeeds")
 			vAssert(len(enc) == n+1 && enc[0] == 0xA5, "encoded image is header+payload")
 			encCopy := append([]byte(nil), enc...)
-			dec, err := d.Decode(make([]byte, 0, vChoose("decCap", 0, 3)), encCopy, newR)
+			dec, err := d.Decode(make([]byte, 0, []int{0, 1, 3}[vChoose("decCap", 0, 2)]), encCopy, newR)
 			vAssert(err == nil, "decode of a valid image succeeds")
 			vAssert(vBytesEq(dec, orig), "Decode(Encode(x)) == x")
 		case 1: // decoding garbage fails and must not poison later calls
